@@ -67,6 +67,15 @@ func Bytes(name string, n int) []byte {
 // Blob is Bytes carried as one wide solver variable (same native behaviour).
 func Blob(name string, n int) []byte { return Bytes(name, n) }
 
+// MalformedSig returns 65 bytes on which ecrecover fails for every digest: r = 0, other bytes from the assignment.
+func MalformedSig(name string) []byte {
+	b := Bytes(name, 65)
+	for i := 0; i < 32; i++ {
+		b[i] = 0
+	}
+	return b
+}
+
 func Len(name string, opts ...int) int {
 	load()
 	if vs, ok := assignment[name]; ok {
